@@ -83,6 +83,7 @@ def run(ck, F, E):
         ck.require(bool(lb.calls_to("ProgramLines::list_tokens")), "C04:ORDERED:list-via-list_tokens",
                    "ordered consumers", "list() iterates list_tokens()", "list() no longer uses list_tokens()", lb.span)
         list_shape(ck, F, lb)
+        list_complete(ck, F)
     pl = get_fn(ck, F, "Program::list")
     if pl is not None:
         ck.require(bool(pl.calls_to("ProgramLines::list")), "C04:ORDERED:Program::list", "ordered consumers",
@@ -362,6 +363,34 @@ def paired_update(ck, F, E, setf):
     d = F.one("<abasic_core::program_lines::ProgramLines as core::default::Default>::default")
     ck.require(d is not None, "C04:PAIR:starts-empty", "paired update", "ProgramLines derives Default (both empty)",
                "ProgramLines no longer has a Default impl to start both indexes empty")
+
+
+def list_complete(ck, F):
+    """"LIST shows exactly these lines": both listing functions emit one entry per stored line.  Loop form: every trip round the
+    loop pushes exactly one entry onto the result; chain form: map + collect with nothing that drops or repeats elements."""
+    from lib import iteration_paths, with_closures
+    DROPS = ("filter", "filter_map", "skip", "skip_while", "take", "take_while", "step_by", "dedup", "truncate", "pop", "retain",
+             "flat_map", "chain", "cycle", "remove", "drain")
+    for fn in ("ProgramLines::list_tokens", "ProgramLines::list"):
+        b = get_fn(ck, F, fn)
+        if b is None:
+            continue
+        why = None
+        trips = iteration_paths(b)
+        names = {c.callee.split("::")[-1] for x in with_closures(F, b) for c in x.calls()}
+        if trips:
+            for p in trips:
+                pushes = [b.call_at(x) for x in p[:-1] if b.call_at(x) is not None and b.call_at(x).callee.endswith("Vec<T, A>::push")
+                          or b.call_at(x) is not None and b.call_at(x).callee.split("::")[-1] in ("push", "push_back")]
+                if len(pushes) != 1:
+                    why = "a trip round its loop pushes %d entries" % len(pushes)
+        elif not ("collect" in names or "extend" in names or "from_iter" in names):
+            why = "it neither loops over the lines nor collects an iterator over them"
+        if why is None and names & set(DROPS):
+            why = "it applies %s to the sequence of lines" % ",".join(sorted(names & set(DROPS)))
+        ck.require(why is None, "C04:LIST:one-entry-per-line:%s" % fn.split("::")[-1], "listing shape",
+                   "%s emits exactly one entry per stored line" % fn.split("::")[-1],
+                   "%s does not emit one entry per stored line (%s): LIST no longer shows exactly the stored program" % (fn, why), b.span)
 
 
 def list_shape(ck, F, lb):
